@@ -333,6 +333,11 @@ def run(R):
                 shape = [s.cls for s in syms]
                 full = ["PIN_LO", "SPI_WRITE", "PIN_HI", "SPI_WRITE"]
                 ok = shape == full[:len(shape)] and (C.result_variant(o.value) == 1 or shape == full)
+                if not ok and C.result_variant(o.value) == 0 and shape == full[:3]:
+                    # the write of the parameters may be left out exactly when there are none (an empty write delivers nothing)
+                    la = sym_int("len(args)", F.pointer_bits, False)
+                    f_ = o.state.facts.copy()
+                    ok = all(f_.assume(c_, 1) for c_ in ([c] if not isinstance(c, (list, tuple)) else c)) and f_.entails_ge0(-la) is not None
                 ok = ok and all((s.recv or "").endswith(".dc") for s in syms if s.cls.startswith("PIN")) \
                     and all((s.recv or "").endswith(".spi") for s in syms if s.cls == "SPI_WRITE")
                 writes = [s for s in syms if s.cls == "SPI_WRITE"]
